@@ -22,16 +22,17 @@ Definition no_pins (g : circuit) : Prop := of_type g (λ t, is_ty BbIn t || is_t
    every pin-typed node is a pin of a registered instance; other nodes have dot-free names (lint only demands an instance prefix
    for a dotted name: a gate called ff0.x next to instance ff0 is lint-clean, its net would be read as a hierarchical name);
    nothing reads a blackbox input pin; pins of different instances are different nodes (instance u with pin a.b / instance u.a with
-   pin b); instance names do not start with a digit and no blackbox type is called like a primitive gate (and, or, ...) *)
+   pin b); instance names do not start with a digit and no blackbox type is called like a primitive gate (and, or, ...); no pin node
+   carries an output mark (the writer declares every marked node as a port, and `ff0.d` as a port name is no Verilog: the real reader
+   stops at the dot - fixes/proposed/c03-pin-output.*; at AST level the name would be one identifier) *)
+Definition no_pin_outputs (g : circuit) : Prop := ∀ n i, g !! n = Some i → n_ty i = BbIn ∨ n_ty i = BbOut → n_out i = false.
 Definition wf_bb (C : Circuit) : Prop :=
   (∀ n i, c_g C !! n = Some i → n_ty i = BbIn ∨ n_ty i = BbOut → ∃ inst d p, c_bbs C !! inst = Some d ∧ n = pin inst p ∧ p ∈ bb_in d ∪ bb_out d) ∧
   (∀ n i, c_g C !! n = Some i → n_ty i ≠ BbIn → n_ty i ≠ BbOut → has_dot n = false) ∧
   (∀ n i m j, c_g C !! n = Some i → n_ty i = BbIn → c_g C !! m = Some j → n ∉ n_fi j) ∧
   (∀ i j d e p q, c_bbs C !! i = Some d → c_bbs C !! j = Some e → p ∈ bb_in d ∪ bb_out d → q ∈ bb_in e ∪ bb_out e → pin i p = pin j q → i = j) ∧
-  (∀ inst d, c_bbs C !! inst = Some d → starts_digit inst = false ∧ prim_of_name (bb_name d) = None).
-
-(* no pin node carries an output mark (the writer would declare the pin name as a port) *)
-Definition no_pin_outputs (g : circuit) : Prop := ∀ n i, g !! n = Some i → n_ty i = BbIn ∨ n_ty i = BbOut → n_out i = false.
+  (∀ inst d, c_bbs C !! inst = Some d → starts_digit inst = false ∧ prim_of_name (bb_name d) = None) ∧
+  no_pin_outputs (c_g C).
 
 (* full statements (validated per generated circuit by Run_C03.holds).  Proved below: roundtrip_identical for all circuits that also
    satisfy wf_bb (C03_roundtrip_identical_bb: blackbox instances with connected and unconnected pins, escaped instance names), both
@@ -46,10 +47,8 @@ Definition roundtrip_equiv_full : Prop := ∀ C b π m rsv,
     (∀ p, p ∈ of_type (c_g C) (is_ty BbIn) → fanin (c_g C') p = fanin (c_g C) p) ∧
     (∀ p, p ∈ of_type (c_g C) (is_ty BbOut) → fanout (c_g C') p = fanout (c_g C) p) ∧
     equiv_on (outputs (c_g C) ∪ of_type (c_g C) (is_ty BbIn)) (c_g C) (c_g C').
-(* the same restricted to where it can hold (wf_bb; all x constants of the original carry one value, as the reader shares one unknown).
-   Proved below: C03_roundtrip_equiv_bb = this statement under the one extra hypothesis no_pin_outputs.  Missing for the literal statement:
-   pin nodes marked as outputs (the writer then declares the pin name as a port, the text uses a pin name as a net name, which is outside
-   the guards of C02's denotation lemmas; the identity theorem C03_roundtrip_identical_bb covers such circuits in the primitive style) *)
+(* the same restricted to where it can hold (wf_bb; all x constants of the original carry one value, as the reader shares one unknown):
+   a theorem, C03_roundtrip_equiv_bb_full below *)
 Definition roundtrip_equiv_bb_full : Prop := ∀ C b π m rsv,
   wf_rt C → wf_bb C → write C b π = Ok m → list_to_set (module_ids m) ⊆ rsv →
   ∃ C', read rsv (bbdefs_of C) m = Ok C' ∧
@@ -183,7 +182,7 @@ Theorem C03_roundtrip_identical_bb : ∀ C π m rsv,
   wf_rt C → wf_bb C → no_consts (c_g C) → write C false π = Ok m → list_to_set (module_ids m) ⊆ rsv →
   read rsv (bbdefs_of C) m = Ok C.
 Proof.
-  intros C π m rsv (Hl & Hg & Hn & Hd & Hcl) (B1 & B2 & B3 & B4 & B5) Hc Hw Hids.
+  intros C π m rsv (Hl & Hg & Hn & Hd & Hcl) (B1 & B2 & B3 & B4 & B5 & _) Hc Hw Hids.
   exact (roundtrip_identical_bb C π m rsv _ (lint_clean_rtb C rt_flags Hl Hg Hn Hd Hcl Hc B1 B2 B3 B4 B5)
            (λ inst d, find_def_registry (c_bbs C) inst d Hd) Hw Hids).
 Qed.
@@ -195,14 +194,14 @@ Print Assumptions C03_roundtrip_identical_bb.
    blackbox input pin of the original is a bb_input node of the read-back circuit attached to the same net (or to none), every output pin
    drives the same net (or none); and the two circuits are equivalent at every output and every blackbox input pin (an unconnected input
    pin is a free node of both circuits that nothing reads: invariant field q_noread of the reader's pin invariant).  This is
-   roundtrip_equiv_bb_full with the one additional hypothesis no_pin_outputs.
+   roundtrip_equiv_bb_full (with the type of the input pins in addition).
    Proof (Proofs/VerilogEqBbProofs.v): the written module satisfies every Prop-level guard of C02's lemmas (read_succeeds_bb_items,
    read_bb_pins_items, C02_read_denotes both directions, C02_read_io at lemma level - the gate statements through the blackbox-free shape
    lemmas on the module without its blackbox statements, the blackbox statements directly); the models of the module are the consistent
    valuations of the original restricted to its nets (each emitted statement denotes its node's function; the detached buffer of an
    output pin is an unconstrained net on one side and a buffer of a free pin on the other); pins by bb_ok. *)
 Theorem C03_roundtrip_equiv_bb : ∀ C b π m rsv,
-  wf_rt C → wf_bb C → no_pin_outputs (c_g C) → write C b π = Ok m → list_to_set (module_ids m) ⊆ rsv →
+  wf_rt C → wf_bb C → write C b π = Ok m → list_to_set (module_ids m) ⊆ rsv →
   ∃ C', read rsv (bbdefs_of C) m = Ok C' ∧
     c_name C' = c_name C ∧ inputs (c_g C') = inputs (c_g C) ∧ outputs (c_g C') = outputs (c_g C) ∧ c_bbs C' = c_bbs C ∧
     (∀ p, p ∈ of_type (c_g C) (is_ty BbIn) → ty (c_g C') p = Some BbIn ∧ fanin (c_g C') p = fanin (c_g C) p) ∧
@@ -211,14 +210,14 @@ Theorem C03_roundtrip_equiv_bb : ∀ C b π m rsv,
     (∀ v', consistent (c_g C') v' → ∃ v, consistent (c_g C) v ∧ (∃ x : bool, ∀ n, n ∈ of_type (c_g C) (is_ty CX) → v n = x) ∧ agrees S v v') ∧
     (∀ v, consistent (c_g C) v → (∃ x : bool, ∀ n, n ∈ of_type (c_g C) (is_ty CX) → v n = x) → ∃ w, consistent (c_g C') w ∧ agrees S w v).
 Proof.
-  intros C b π m rsv (Hl & Hg & Hn & Hd & Hcl) (B1 & B2 & B3 & B4 & B5) Hno Hw Hids.
+  intros C b π m rsv (Hl & Hg & Hn & Hd & Hcl) (B1 & B2 & B3 & B4 & B5 & Hno) Hw Hids.
   exact (roundtrip_equiv_bb_ends C b π m rsv (lint_clean_rteb C rt_flags Hl Hg Hn Hd Hcl B1 B2 B3 B4 B5 Hno) Hw Hids).
 Qed.
 Print Assumptions C03_roundtrip_equiv_bb.
 (* the same with the equivalence at EVERY node of the original, pins of both kinds included (an output pin carries the value of the net it
    drives; unconnected pins are free nodes of both circuits that nothing reads) *)
 Theorem C03_roundtrip_equiv_bb_nodes : ∀ C b π m rsv,
-  wf_rt C → wf_bb C → no_pin_outputs (c_g C) → write C b π = Ok m → list_to_set (module_ids m) ⊆ rsv →
+  wf_rt C → wf_bb C → write C b π = Ok m → list_to_set (module_ids m) ⊆ rsv →
   ∃ C', read rsv (bbdefs_of C) m = Ok C' ∧
     c_name C' = c_name C ∧ inputs (c_g C') = inputs (c_g C) ∧ outputs (c_g C') = outputs (c_g C) ∧ c_bbs C' = c_bbs C ∧
     (∀ p, p ∈ of_type (c_g C) (is_ty BbIn) → ty (c_g C') p = Some BbIn ∧ fanin (c_g C') p = fanin (c_g C) p) ∧
@@ -226,10 +225,17 @@ Theorem C03_roundtrip_equiv_bb_nodes : ∀ C b π m rsv,
     (∀ v', consistent (c_g C') v' → ∃ v, consistent (c_g C) v ∧ (∃ x : bool, ∀ n, n ∈ of_type (c_g C) (is_ty CX) → v n = x) ∧ agrees (dom (c_g C)) v v') ∧
     (∀ v, consistent (c_g C) v → (∃ x : bool, ∀ n, n ∈ of_type (c_g C) (is_ty CX) → v n = x) → ∃ w, consistent (c_g C') w ∧ agrees (dom (c_g C)) w v).
 Proof.
-  intros C b π m rsv (Hl & Hg & Hn & Hd & Hcl) (B1 & B2 & B3 & B4 & B5) Hno Hw Hids.
+  intros C b π m rsv (Hl & Hg & Hn & Hd & Hcl) (B1 & B2 & B3 & B4 & B5 & Hno) Hw Hids.
   exact (roundtrip_equiv_bb C b π m rsv (lint_clean_rteb C rt_flags Hl Hg Hn Hd Hcl B1 B2 B3 B4 B5 Hno) Hw Hids).
 Qed.
 Print Assumptions C03_roundtrip_equiv_bb_nodes.
+(* roundtrip_equiv_bb_full, literally *)
+Theorem C03_roundtrip_equiv_bb_full : roundtrip_equiv_bb_full.
+Proof.
+  intros C b π m rsv H1 H2 H3 H4. destruct (C03_roundtrip_equiv_bb C b π m rsv H1 H2 H3 H4) as (C' & R1 & R2 & R3 & R4 & R5 & R6 & R7 & R8).
+  exists C'. repeat (split; [done|]). split; [intros p Hp; by destruct (R6 p Hp)|]. split; [done|exact R8].
+Qed.
+Print Assumptions C03_roundtrip_equiv_bb_full.
 
 (* roundtrip_equiv (its conclusion word for word) for circuits with blackbox instances in the primitive style without constants:
    corollary of C03_roundtrip_identical_bb - the read-back circuit is the original *)
@@ -321,7 +327,9 @@ Proof.
       change (map_Forall (λ (i : string) d, map_Forall (λ (j : string) e, bb_name d = bb_name e → d = e) (c_bbs ex_C4)) (c_bbs ex_C4)).
       apply (bool_decide_unpack _). vm_compute. exact I.
     + apply closedb_spec. vm_compute. reflexivity.
-  - apply (wf_bb_dec_sound (c_g ex_C4) (c_bbs ex_C4)). apply (bool_decide_unpack _). vm_compute. exact I.
+  - pose proof (wf_bb_dec_sound (c_g ex_C4) (c_bbs ex_C4) ltac:(apply (bool_decide_unpack _); vm_compute; exact I)) as (P1 & P2 & P3 & P4 & P5).
+    split; [exact P1|]. split; [exact P2|]. split; [exact P3|]. split; [exact P4|]. split; [exact P5|].
+    change (map_Forall (λ (n : string) i, n_ty i = BbIn ∨ n_ty i = BbOut → n_out i = false) (c_g ex_C4)). apply (bool_decide_unpack _). vm_compute. exact I.
   - apply (bool_decide_unpack _). vm_compute. exact I.
   - vm_compute. reflexivity.
 Qed.
@@ -357,7 +365,7 @@ Definition ex_ord6 : worder :=
      o_bbs := [("\u[1]", ["en"; "d"; "clk"], ["qn"; "q"]); ("ff0", ["clk"; "en"; "d"], ["q"; "qn"])];
      o_nodes := ["n1"; "q"; "u"; "g"; "k1"; "q2"; "w"];
      o_fi := [("n1", ["w"; "q2"]); ("q", []); ("u", []); ("g", ["q"; "u"; "a"]); ("k1", []); ("q2", []); ("w", [])] |}.
-Example C03_ex_equiv_bb_hyps : wf_rt ex_C6 ∧ wf_bb ex_C6 ∧ no_pin_outputs (c_g ex_C6) ∧
+Example C03_ex_equiv_bb_hyps : wf_rt ex_C6 ∧ wf_bb ex_C6 ∧
   match write ex_C6 true ex_ord6, write ex_C6 false ex_ord6 with
   | Ok m, Ok m' => match read (list_to_set (module_ids m)) (bbdefs_of ex_C6) m, read (list_to_set (module_ids m')) (bbdefs_of ex_C6) m' with
                    | Ok C1', Ok C2' => bool_decide (c_bbs C1' = c_bbs ex_C6) && bool_decide (c_bbs C2' = c_bbs ex_C6) &&
@@ -365,7 +373,7 @@ Example C03_ex_equiv_bb_hyps : wf_rt ex_C6 ∧ wf_bb ex_C6 ∧ no_pin_outputs (c
                    | _, _ => false end
   | _, _ => false end = true.
 Proof.
-  split; [|split; [|split]].
+  split; [|split].
   - split; [vm_compute; reflexivity|]. split; [|split; [|split]].
     + change (map_Forall (λ n i, n_ty i ∈ gate_types → n_fi i ≠ ∅) (c_g ex_C6)). apply (bool_decide_unpack _). vm_compute. exact I.
     + change (set_Forall (λ n, n ≠ "" ∧ starts_digit n = false) (dom (c_g ex_C6))). apply (bool_decide_unpack _). vm_compute. exact I.
@@ -373,8 +381,9 @@ Proof.
       change (map_Forall (λ (i : string) d, map_Forall (λ (j : string) e, bb_name d = bb_name e → d = e) (c_bbs ex_C6)) (c_bbs ex_C6)).
       apply (bool_decide_unpack _). vm_compute. exact I.
     + apply closedb_spec. vm_compute. reflexivity.
-  - apply (wf_bb_dec_sound (c_g ex_C6) (c_bbs ex_C6)). apply (bool_decide_unpack _). vm_compute. exact I.
-  - change (map_Forall (λ (n : string) i, n_ty i = BbIn ∨ n_ty i = BbOut → n_out i = false) (c_g ex_C6)). apply (bool_decide_unpack _). vm_compute. exact I.
+  - pose proof (wf_bb_dec_sound (c_g ex_C6) (c_bbs ex_C6) ltac:(apply (bool_decide_unpack _); vm_compute; exact I)) as (P1 & P2 & P3 & P4 & P5).
+    split; [exact P1|]. split; [exact P2|]. split; [exact P3|]. split; [exact P4|]. split; [exact P5|].
+    change (map_Forall (λ (n : string) i, n_ty i = BbIn ∨ n_ty i = BbOut → n_out i = false) (c_g ex_C6)). apply (bool_decide_unpack _). vm_compute. exact I.
   - vm_compute. reflexivity.
 Qed.
 
